@@ -192,6 +192,7 @@ func cKnobs(c *ctx, dialect string, i int, o *wgenOpts, knob *string) {
 	o.safeDiv = dialect == "glsl"
 	o.noValIdx = dialect == "msl"
 	o.contCall = c.chance(0.15)
+	o.fwdNest = c.chance(0.15)
 	ks := cRisky[dialect]
 	if len(ks) > 0 && i%5 == 4 {
 		*knob = ks[(i/5)%len(ks)]
